@@ -65,11 +65,56 @@ def canonical_names(d):
     for mod, name, inputs, output in ROLES:
         if mod + name in ids:
             continue
-        cands = [f['id'] for f in d['fns'] if f['kind'] != 'Closure' and not f.get('derived') and f['id'].startswith(mod) and '::' not in f['id'][len(mod):]
-                 and [_nolife(t) for t in f.get('inputs', [])] == inputs and _nolife(f.get('output', '')) == output and f['id'] not in taken]
+        sig_ok = lambda f: f['kind'] != 'Closure' and not f.get('derived') and [_nolife(t) for t in f.get('inputs', [])] == inputs and \
+            _nolife(f.get('output', '')) == output and f['id'] not in taken
+        cands = [f['id'] for f in d['fns'] if sig_ok(f) and f['id'].startswith(mod) and '::' not in f['id'][len(mod):]]
+        if not cands:
+            # moved to another module or turned into a method: a function the pinned tree does not have, with this very signature
+            known = _known_fns()
+            cands = [f['id'] for f in d['fns'] if sig_ok(f) and known and f['id'] not in known]
         if len(cands) == 1:
             out.append((cands[0], mod + name))
+            continue
+        if not cands and len(set(inputs)) == len(inputs):
+            # the same parameters in another order (a free function turned into a method takes `self` first)
+            known = _known_fns()
+            pc = [f for f in d['fns'] if f['kind'] != 'Closure' and not f.get('derived') and known and f['id'] not in known and f['id'] not in taken
+                  and sorted(_nolife(t) for t in f.get('inputs', [])) == sorted(inputs) and _nolife(f.get('output', '')) == output]
+            if len(pc) == 1:
+                have = [_nolife(t) for t in pc[0]['inputs']]
+                out.append((pc[0]['id'], mod + name, [have.index(t) for t in inputs]))
     return out
+
+
+def permute_params(d, fid, perm):
+    """reorder the parameters of function `fid` (new parameter i = old parameter perm[i]) in its body and at every call site"""
+    f = next((x for x in d['fns'] if x['id'] == fid), None)
+    if f is None or len(perm) != f['arg_count']:
+        return
+    n = f['arg_count']
+    m = {1 + perm[i]: 1 + i for i in range(n)}
+    for b in f['blocks']:
+        for pl, role in _places(b['stmts']) + _places(b['term']):
+            if pl['local'] in m:
+                pl['local'] = m[pl['local']]
+    for dbg in f['debug']:
+        for pl, role in _places(dbg['place']):
+            if pl['local'] in m:
+                pl['local'] = m[pl['local']]
+        if dbg.get('arg') is not None and (dbg['arg']) in m:
+            dbg['arg'] = m[dbg['arg']]
+    old_locals = list(f['locals'])
+    for i in range(n):
+        nl = dict(old_locals[1 + perm[i]])
+        nl['i'] = 1 + i
+        f['locals'][1 + i] = nl
+    f['inputs'] = [f['inputs'][perm[i]] for i in range(n)]
+    for g in d['fns']:
+        for b in g['blocks']:
+            t = b['term']
+            c = t.get('callee') if t['k'] == 'Call' else None
+            if c and (c.get('rpath') == fid or c.get('path') == fid) and len(t['args']) == n:
+                t['args'] = [t['args'][perm[i]] for i in range(n)]
 
 
 def _places(node, role='other', out=None):
@@ -542,12 +587,17 @@ class Program:
             text = fh.read()
         d = json.loads(text)
         self.renamed = canonical_names(d)
+        self.renamed = [tuple(x) for x in self.renamed]
+        perms = [(x[1], x[2]) for x in self.renamed if len(x) > 2]
+        self.renamed = [(x[0], x[1]) for x in self.renamed]
         if self.renamed:
             for actual, role in self.renamed:
                 text = re.sub(r'(?<![\w:])' + re.escape(actual) + r'(?![\w])', role, text)
                 sa, sr = '::'.join(actual.split('::')[-2:]), '::'.join(role.split('::')[-2:])
                 text = re.sub(r'(?<![\w:])' + re.escape(sa) + r'(?![\w])', sr, text)
             d = json.loads(text)
+            for role_, perm_ in perms:
+                permute_params(d, role_, perm_)
         # `x.into()` runs the crate's own `impl From<T> for U` when there is one: make that visible as the resolved callee
         ids_ = {f['id'] for f in d['fns']}
         for f in d['fns']:
